@@ -1,8 +1,10 @@
 //! agv-harness: runs the real ast-grep functions on generated inputs and writes one JSON op
 //! per line (`{"op","a","r"}`) for the Lean model driver to replay, plus `oracle` lines
 //! (property oracles evaluated on the implementation alone).
-mod util;
+mod corpus;
+mod treedump;
 mod units;
+mod util;
 
 use util::*;
 
